@@ -79,6 +79,8 @@ def Exc.ofVarErr : C14.Err → Exc ε
   | .typeError => .typeError
   | .assertionError => .assertionError
   | .unmodelled => .unmodelled
+  | .attributeError => .unmodelled     -- not raised by `_update_context`
+  | .indexError => .indexError
 
 def liftErr : Except Lena.Err β → Except (Exc ε) β
   | .ok b => .ok b
@@ -351,6 +353,28 @@ def SIB.compute (an : Analysis σ D ρ ε) (av : ArgVar α D ε) (s : SIB α σ)
         | .error e => .error e
         | .ok h => .ok (h, ctx)) traces
 
+/-- The state after `compute()` has been iterated: `_update_context` works on `self._cur_context` itself
+(line 388: "no copy"), so the context stays updated; the cells are left as they are (assumption: iterating
+an analysis' `compute()` does not change its state).  When `_update_context` raises, the state is kept. -/
+def SIB.afterCompute (av : ArgVar α D ε) (s : SIB α σ) : SIB α σ :=
+  match C14.updateContext names true s.curContext av.varCtx with
+  | .error _ => s
+  | .ok ctx => { s with curContext := ctx }
+
+/-- a second `compute()` on the same object -/
+def SIB.computeAgain (an : Analysis σ D ρ ε) (av : ArgVar α D ε) (s : SIB α σ) :
+    Trace (Hist α ρ × Slots) (Exc ε) :=
+  SIB.compute names an av (SIB.afterCompute names av s)
+
+/-- **A `SplitIntoBins` is itself a fill/compute machine**, so it can be the accumulator of the analysis of
+another `SplitIntoBins` (a two-level split): `FillComputeSeq(SplitIntoBins(…), *after)` seen from outside.
+`after` is what `Sequence(*after).run` makes of the generator `compute()`. -/
+def SIB.analysis (an : Analysis σ D ρ ε) (av : ArgVar α D ε) (guess : Nat → Nat → Nat → Int)
+    {ρ' : Type} (after : Trace (Hist α ρ × Slots) (Exc ε) → Trace ρ' (Exc ε)) :
+    Analysis (SIB α σ) D ρ' (Exc ε) where
+  fill := fun s v => SIB.fill names an av guess s v
+  compute := fun s => after (SIB.compute names an av s)
+
 end sib
 
 /-! ## `update_nested`, `get_example_bin`, `iter_bins_with_edges` -/
@@ -568,6 +592,27 @@ def mapBinsRun (seqStart : Value D → Except ε (Trace (Value D) ε)) (sel : Va
     (flow : List (FVal α D)) : Trace (FVal α D) (Exc ε) :=
   traceFlatMap (mapBinsOne names seqStart sel drop) flow
 
+/-- `IterateBins().run(sib.compute())` as the post-element of a `FillComputeSeq`: the histograms are pulled
+one by one; an exception of `compute()` arrives after the cells of the histograms yielded before it -/
+def iterateAfter (sel : D → Bool) (createEdgesStr : List (α × α) → Option V → Except (Exc ε) V)
+    (encEdges : List (α × α) → V) (t : Trace (Hist α (Value D) × Slots) (Exc ε)) : Trace (FVal α D) (Exc ε) :=
+  (iterateBinsRun names sel createEdgesStr encEdges (t.out.map (fun hc => FVal.hist hc.1 (some hc.2)))).append
+    ⟨[], t.fin⟩
+
+/-- `IterateBins.__init__(create_edges_str, select_bins)` (lines 61-77): `create_edges_str` must be callable
+(or `None`), `select_bins` convertible to a `Selector` (or `None`); otherwise `LenaTypeError`. -/
+def iterateBinsInit (cesCallable selOk : Bool) : Except (Exc ε) Unit :=
+  if !cesCallable then .error .lenaTypeError
+  else if !selOk then .error .lenaTypeError
+  else .ok ()
+
+/-- `MapBins.__init__(seq, select_bins)` (lines 175-199): `seq` a run element or convertible to a
+`Sequence`, `select_bins` convertible to a `Selector`; otherwise `LenaTypeError`. -/
+def mapBinsInit (seqOk selOk : Bool) : Except (Exc ε) Unit :=
+  if !seqOk then .error .lenaTypeError
+  else if !selOk then .error .lenaTypeError
+  else .ok ()
+
 end bins
 end order
 
@@ -630,6 +675,40 @@ def cellToString (fmt : α → String) (cellEdges : List (α × α)) (varContext
     else
       .ok (.str (joinUnderscore
         (List.zipWith (fun (e : α × α) nm => fmt e.1 ++ "_lte_" ++ nm ++ "_lt_" ++ fmt e.2) cellEdges cn)))
+
+/-- the keyword arguments of `cell_to_string`: `coord_names`, `coord_fmt` (a format with three `{}` in the
+order low, name, high: the four literal pieces around them), `coord_join`, `reverse` -/
+structure CtsOpts where
+  coordNames : Option (List String) := none
+  fmtPre : String := ""
+  fmtMid1 : String := "_lte_"
+  fmtMid2 : String := "_lt_"
+  fmtPost : String := ""
+  join : String := "_"
+  reverse : Bool := false
+
+/-- `sep.join(strs)` -/
+def joinWith (sep : String) : List String → String
+  | [] => ""
+  | [s] => s
+  | s :: r => s ++ sep ++ joinWith sep r
+
+/-- `cell_to_string(cell_edges, var_context, coord_names, coord_fmt, coord_join, reverse)`
+(hist_functions.py:28-68) -/
+def cellToStringOpts (fmt : α → String) (o : CtsOpts) (cellEdges : List (α × α)) (varContext : Option V) :
+    Except (Exc ε) V :=
+  let names? : Except (Exc ε) (List String) :=
+    match o.coordNames with
+    | some l => .ok l
+    | none => coordNames names cellEdges.length varContext
+  match names? with
+  | .error e => .error e
+  | .ok cn =>
+    if cellEdges.length ≠ cn.length then .error .lenaValueError
+    else
+      let strs := List.zipWith (fun (e : α × α) nm =>
+        o.fmtPre ++ fmt e.1 ++ o.fmtMid1 ++ nm ++ o.fmtMid2 ++ fmt e.2 ++ o.fmtPost) cellEdges cn
+      .ok (.str (joinWith o.join (if o.reverse then strs.reverse else strs)))
 
 /-- the tuple of `(low, high)` tuples as a context value -/
 def encEdges (enc : α → V) (cellEdges : List (α × α)) : V :=
